@@ -276,6 +276,9 @@ func (p *parser) check() error {
 	prefixNotation := !p.isInfixNotation()
 
 	last := len(p.tokens) - 1
+	if last < 0 {
+		return p.invalidExprErr(0)
+	}
 	if prefixNotation &&
 		(p.tokens[0].typ != lParen || p.tokens[last].typ != rParen) {
 		return p.parenUnmatchedErr(0)
@@ -434,6 +437,10 @@ func (p *parser) errWithPos(err error, idx int) error {
 
 func (p *parser) pos(i int) string {
 	A := []rune(p.source)
+
+	if len(A) == 0 {
+		return " []"
+	}
 
 	if i < 0 || i >= len(A) {
 		i = 0
